@@ -518,6 +518,13 @@ mutual
     | .int i => inRange64 i
     | .bulk b => decide (b.length < 2 ^ 63)
     | .array xs => decide (xs.length < 2 ^ 63) && Value.allWire xs
+    -- the RESP3 scalars: null, booleans, doubles (the text the serializer writes: a decimal, inf or nan),
+    -- big numbers, blob errors, verbatim strings (three-letter format)
+    | .null | .bool _ => true
+    | .double t => t.all (· != 13) && ((parseDecimal t).isSome || isInfNan t)
+    | .big t => t.all (· != 13)
+    | .blobErr b => decide (b.length < 2 ^ 63)
+    | .verbatim f t => decide (f.length = 3) && decide (f.length + 1 + t.length < 2 ^ 63)
     | _ => false
   def Value.allWire : List Value → Bool
     | [] => true
@@ -664,6 +671,181 @@ theorem parse_int (i : Int) (rest : Bytes) (fuel pos : Nat) (h : inRange64 i = t
   simp [ser, crlf]
   omega
 
+/-! ### RESP3 scalars -/
+
+theorem sb_null : sb "_\r\n" = [95, 13, 10] := by decide +kernel
+theorem sb_true : sb "#t\r\n" = [35, 116, 13, 10] := by decide +kernel
+theorem sb_false : sb "#f\r\n" = [35, 102, 13, 10] := by decide +kernel
+theorem sb_t : sb "#t" = [35, 116] := by decide +kernel
+theorem sb_f : sb "#f" = [35, 102] := by decide +kernel
+theorem sb_dot : sb "." = [46] := by decide +kernel
+theorem sb_us : sb "_" = [95] := by decide +kernel
+
+theorem parse_null (rest : Bytes) (fuel pos : Nat) :
+    parseValue (fuel + 1) false (ser .null ++ rest) pos = .ok .null rest (pos + (ser Value.null).length) := by
+  have hser : ser .null ++ rest = [95] ++ 13 :: 10 :: rest := by simp [ser, sb_null]
+  rw [hser]
+  unfold parseValue
+  rw [splitLine_line _ _ (by decide)]
+  simp [ser, sb_null, sb_t, sb_f, sb_dot, sb_us]
+
+theorem parse_bool (b : Bool) (rest : Bytes) (fuel pos : Nat) :
+    parseValue (fuel + 1) false (ser (.bool b) ++ rest) pos = .ok (.bool b) rest (pos + (ser (Value.bool b)).length) := by
+  cases b with
+  | true =>
+    have hser : ser (.bool true) ++ rest = [35, 116] ++ 13 :: 10 :: rest := by simp [ser, sb_true]
+    rw [hser]
+    unfold parseValue
+    rw [splitLine_line _ _ (by decide)]
+    simp [ser, sb_true, sb_t, sb_f]
+  | false =>
+    have hser : ser (.bool false) ++ rest = [35, 102] ++ 13 :: 10 :: rest := by simp [ser, sb_false]
+    rw [hser]
+    unfold parseValue
+    rw [splitLine_line _ _ (by decide)]
+    simp [ser, sb_false, sb_t, sb_f]
+
+/-- a big number: any digits text without CR -/
+theorem parse_big (t rest : Bytes) (fuel pos : Nat) (ht : ∀ c ∈ t, c ≠ 13) :
+    parseValue (fuel + 1) false (ser (.big t) ++ rest) pos = .ok (.big t) rest (pos + (ser (Value.big t)).length) := by
+  have hline : ∀ c ∈ (40 : UInt8) :: t, c ≠ 13 := by
+    intro c hc
+    rcases List.mem_cons.mp hc with e | e
+    · subst e; decide
+    · exact ht c e
+  have hser : ser (.big t) ++ rest = ((40 : UInt8) :: t) ++ 13 :: 10 :: rest := by simp [ser, crlf, List.append_assoc]
+  rw [hser]
+  unfold parseValue
+  rw [splitLine_line _ _ hline]
+  simp [ser, crlf, sb_t, sb_f, sb_dot, sb_us]
+  omega
+
+/-- a double: the text the serializer writes is a decimal (or inf / nan) without CR -/
+theorem parse_double (t rest : Bytes) (fuel pos : Nat) (ht : ∀ c ∈ t, c ≠ 13)
+    (hd : ((parseDecimal t).isSome || isInfNan t) = true) :
+    parseValue (fuel + 1) false (ser (.double t) ++ rest) pos = .ok (.double t) rest (pos + (ser (Value.double t)).length) := by
+  have hline : ∀ c ∈ (44 : UInt8) :: t, c ≠ 13 := by
+    intro c hc
+    rcases List.mem_cons.mp hc with e | e
+    · subst e; decide
+    · exact ht c e
+  have hser : ser (.double t) ++ rest = ((44 : UInt8) :: t) ++ 13 :: 10 :: rest := by simp [ser, crlf, List.append_assoc]
+  rw [hser]
+  unfold parseValue
+  rw [splitLine_line _ _ hline]
+  simp only
+  have h1 : ((44 : UInt8) == 43) = false := by decide
+  have h2 : ((44 : UInt8) == 45) = false := by decide
+  have h3 : ((44 : UInt8) == 36) = false := by decide
+  have h4 : ((44 : UInt8) == 58) = false := by decide
+  have h5 : ((44 : UInt8) == 42) = false := by decide
+  have h6 : ((44 : UInt8) == 37) = false := by decide
+  have h7 : ((44 : UInt8) == 44) = true := by decide
+  simp only [h1, h2, h3, h4, h5, h6, h7, Bool.false_eq_true, ↓reduceIte, hd]
+  simp [ser, crlf]
+  omega
+
+theorem sb_bangq : sb "!?" = [33, 63] := by decide +kernel
+
+theorem parse_blobErr (b rest : Bytes) (fuel pos : Nat) (hl : b.length < 2 ^ 63) :
+    parseValue (fuel + 1) false (ser (.blobErr b) ++ rest) pos =
+      .ok (.blobErr b) rest (pos + (ser (.blobErr b)).length) := by
+  obtain ⟨_, hall, hne, _⟩ := natDigits_spec b.length
+  have hline : ∀ c ∈ (33 : UInt8) :: natDigits b.length, c ≠ 13 := by
+    intro c hc
+    rcases List.mem_cons.mp hc with e | e
+    · subst e; decide
+    · exact (hall c e).2
+  have hser : ser (.blobErr b) ++ rest = ((33 : UInt8) :: natDigits b.length) ++ 13 :: 10 :: (b ++ 13 :: 10 :: rest) := by
+    simp [ser, serLen, crlf, List.append_assoc]
+  rw [hser]
+  unfold parseValue
+  rw [splitLine_line _ _ hline]
+  simp only
+  have hq : ((33 : UInt8) :: natDigits b.length == sb "!?") = false := by
+    rw [sb_bangq]
+    simp only [List.cons_beq_cons, beq_self_eq_true, Bool.true_and]
+    exact digits_ne_q b.length
+  have c1 : ((33 : UInt8) == 43) = false := by decide
+  have c2 : ((33 : UInt8) == 45) = false := by decide
+  have c3 : ((33 : UInt8) == 36) = false := by decide
+  have c4 : ((33 : UInt8) == 58) = false := by decide
+  have c5 : ((33 : UInt8) == 42) = false := by decide
+  have c6 : ((33 : UInt8) == 37) = false := by decide
+  have c7 : ((33 : UInt8) == 44) = false := by decide
+  have c8 : ((33 : UInt8) == 126) = false := by decide
+  have c9 : ((33 : UInt8) == 33) = true := by decide
+  have d1 : ((33 : UInt8) :: natDigits b.length == sb "#t") = false := by simp [sb_t]
+  have d2 : ((33 : UInt8) :: natDigits b.length == sb "#f") = false := by simp [sb_f]
+  have d3 : ((33 : UInt8) :: natDigits b.length == sb ".") = false := by simp [sb_dot]
+  have d4 : ((33 : UInt8) :: natDigits b.length == sb "_") = false := by simp [sb_us]
+  simp only [c1, c2, c3, c4, c5, c6, c7, c8, c9, d1, d2, d3, d4, hq, Bool.false_eq_true, ↓reduceIte, Bool.false_and,
+    lineCount, List.drop_succ_cons, List.drop_zero, parseInt64_natDigits b.length hl]
+  have hnn : ¬ ((b.length : Int) < 0) := by omega
+  simp only [hnn, ↓reduceIte, Int.toNat_natCast]
+  unfold takeBulk
+  have hlen : ¬ (b.length + 2 > (b ++ 13 :: 10 :: rest).length) := by simp
+  simp only [hlen, ↓reduceIte, List.take_left', List.drop_left']
+  simp [ser, serLen, crlf]
+  omega
+
+theorem parse_verbatim (f t rest : Bytes) (fuel pos : Nat) (hf : f.length = 3) (hl : f.length + 1 + t.length < 2 ^ 63) :
+    parseValue (fuel + 1) false (ser (.verbatim f t) ++ rest) pos =
+      .ok (.verbatim f t) rest (pos + (ser (.verbatim f t)).length) := by
+  obtain ⟨x, y, z, rfl⟩ : ∃ x y z, f = [x, y, z] := by
+    match f, hf with
+    | [x, y, z], _ => exact ⟨x, y, z, rfl⟩
+  have hl' : 4 + t.length < 2 ^ 63 := by simp at hl; omega
+  obtain ⟨_, hall, hne, _⟩ := natDigits_spec (4 + t.length)
+  have hline : ∀ c ∈ (61 : UInt8) :: natDigits (4 + t.length), c ≠ 13 := by
+    intro c hc
+    rcases List.mem_cons.mp hc with e | e
+    · subst e; decide
+    · exact (hall c e).2
+  have hcount : [x, y, z].length + 1 + t.length = 4 + t.length := by simp
+  have hser : ser (.verbatim [x, y, z] t) ++ rest =
+      ((61 : UInt8) :: natDigits (4 + t.length)) ++ 13 :: 10 :: ((x :: y :: z :: 58 :: t) ++ 13 :: 10 :: rest) := by
+    simp only [ser, serLen, hcount, crlf, List.append_assoc] <;> rfl
+  rw [hser]
+  unfold parseValue
+  rw [splitLine_line _ _ hline]
+  simp only
+  have c1 : ((61 : UInt8) == 43) = false := by decide
+  have c2 : ((61 : UInt8) == 45) = false := by decide
+  have c3 : ((61 : UInt8) == 36) = false := by decide
+  have c4 : ((61 : UInt8) == 58) = false := by decide
+  have c5 : ((61 : UInt8) == 42) = false := by decide
+  have c6 : ((61 : UInt8) == 37) = false := by decide
+  have c7 : ((61 : UInt8) == 44) = false := by decide
+  have c8 : ((61 : UInt8) == 126) = false := by decide
+  have c9 : ((61 : UInt8) == 33) = false := by decide
+  have c10 : ((61 : UInt8) == 61) = true := by decide
+  have d1 : ((61 : UInt8) :: natDigits (4 + t.length) == sb "#t") = false := by simp [sb_t]
+  have d2 : ((61 : UInt8) :: natDigits (4 + t.length) == sb "#f") = false := by simp [sb_f]
+  have d3 : ((61 : UInt8) :: natDigits (4 + t.length) == sb ".") = false := by simp [sb_dot]
+  have d4 : ((61 : UInt8) :: natDigits (4 + t.length) == sb "_") = false := by simp [sb_us]
+  simp only [c1, c2, c3, c4, c5, c6, c7, c8, c9, c10, d1, d2, d3, d4, Bool.false_eq_true, ↓reduceIte, Bool.false_and,
+    lineCount, List.drop_succ_cons, List.drop_zero, parseInt64_natDigits _ hl']
+  have hnn : ¬ (((4 + t.length : Nat) : Int) < 0) := by omega
+  simp only [hnn, ↓reduceIte, Int.toNat_natCast]
+  unfold takeBulk
+  have hbl : (x :: y :: z :: 58 :: t).length = 4 + t.length := by simp; omega
+  have hlen : ¬ (4 + t.length + 2 > ((x :: y :: z :: 58 :: t) ++ 13 :: 10 :: rest).length) := by
+    rw [List.length_append, hbl]; simp
+  simp only [hlen, ↓reduceIte]
+  have htake : List.take (4 + t.length) ((x :: y :: z :: 58 :: t) ++ 13 :: 10 :: rest) = x :: y :: z :: 58 :: t :=
+    List.take_left' hbl
+  have hdrop : List.drop (4 + t.length) ((x :: y :: z :: 58 :: t) ++ 13 :: 10 :: rest) = 13 :: 10 :: rest :=
+    List.drop_left' hbl
+  rw [hdrop]
+  simp only [htake]
+  simp [ser, serLen, crlf]
+  have hge : ¬ (t.length + 1 + 1 + 1 + 1 < 4) := by omega
+  simp only [hge, ↓reduceIte]
+  congr 1
+  omega
+
+
 mutual
   /-- **Reply framing and binary safety (RESP2).** The bytes the serializer writes for a reply are read
       back as exactly one value — that value (status lines with CR / LF replaced by spaces, bulk strings
@@ -719,9 +901,29 @@ mutual
       rw [parseN_ser xs hw.2 f _ rest [] hf']
       simp [ser, serLen, crlf, canon]
       omega
-    | .double _, hw, _, _, _, _ | .bool _, hw, _, _, _, _ | .big _, hw, _, _, _, _ | .verbatim _ _, hw, _, _, _, _
-    | .blobErr _, hw, _, _, _, _ | .map _, hw, _, _, _, _ | .pairs _, hw, _, _, _, _ | .set _, hw, _, _, _, _
-    | .attr _, hw, _, _, _, _ | .null, hw, _, _, _, _ | .push _ _, hw, _, _, _, _ | .endMark, hw, _, _, _, _ => by
+    | .null, _, fuel, pos, rest, hf => by
+      obtain ⟨f, rfl⟩ : ∃ f, fuel = f + 1 := ⟨fuel - 1, by simp [need] at hf; omega⟩
+      exact parse_null rest f pos
+    | .bool b, _, fuel, pos, rest, hf => by
+      obtain ⟨f, rfl⟩ : ∃ f, fuel = f + 1 := ⟨fuel - 1, by simp [need] at hf; omega⟩
+      exact parse_bool b rest f pos
+    | .double t, hw, fuel, pos, rest, hf => by
+      obtain ⟨f, rfl⟩ : ∃ f, fuel = f + 1 := ⟨fuel - 1, by simp [need] at hf; omega⟩
+      simp only [Value.wire, Bool.and_eq_true, List.all_eq_true, bne_iff_ne, ne_eq] at hw
+      exact parse_double t rest f pos hw.1 hw.2
+    | .big t, hw, fuel, pos, rest, hf => by
+      obtain ⟨f, rfl⟩ : ∃ f, fuel = f + 1 := ⟨fuel - 1, by simp [need] at hf; omega⟩
+      simp only [Value.wire, List.all_eq_true, bne_iff_ne, ne_eq] at hw
+      exact parse_big t rest f pos hw
+    | .blobErr b, hw, fuel, pos, rest, hf => by
+      obtain ⟨f, rfl⟩ : ∃ f, fuel = f + 1 := ⟨fuel - 1, by simp [need] at hf; omega⟩
+      exact parse_blobErr b rest f pos (by simpa [Value.wire] using hw)
+    | .verbatim fm t, hw, fuel, pos, rest, hf => by
+      obtain ⟨f, rfl⟩ : ∃ f, fuel = f + 1 := ⟨fuel - 1, by simp [need] at hf; omega⟩
+      simp only [Value.wire, Bool.and_eq_true, decide_eq_true_eq] at hw
+      exact parse_verbatim fm t rest f pos hw.1 hw.2
+    | .map _, hw, _, _, _, _ | .pairs _, hw, _, _, _, _ | .set _, hw, _, _, _, _
+    | .attr _, hw, _, _, _, _ | .push _ _, hw, _, _, _, _ | .endMark, hw, _, _, _, _ => by
       simp [Value.wire] at hw
   theorem parseN_ser : ∀ (xs : List Value), Value.allWire xs = true → ∀ (fuel pos : Nat) (rest : Bytes) (acc : List Value),
       needList xs ≤ fuel →
@@ -753,8 +955,12 @@ mutual
       have := needList_le_len xs hw.2
       simp only [need, ser, serLen, crlf, List.length_append, List.length_cons, List.length_nil]
       omega
-    | .double _, hw | .bool _, hw | .big _, hw | .verbatim _ _, hw | .blobErr _, hw | .map _, hw | .pairs _, hw
-    | .set _, hw | .attr _, hw | .null, hw | .push _ _, hw | .endMark, hw => by simp [Value.wire] at hw
+    | .double _, _ | .big _, _ | .verbatim _ _, _ | .blobErr _, _ => by simp [need, ser, serLen, crlf]
+    | .null, _ => by simp [need, ser, sb_null]
+    | .bool true, _ => by simp [need, ser, sb_true]
+    | .bool false, _ => by simp [need, ser, sb_false]
+    | .map _, hw | .pairs _, hw
+    | .set _, hw | .attr _, hw | .push _ _, hw | .endMark, hw => by simp [Value.wire] at hw
   theorem needList_le_len : ∀ (xs : List Value), Value.allWire xs = true → needList xs ≤ (serList xs).length + 1
     | [], _ => by simp [needList, serList]
     | x :: xs, hw => by
@@ -768,7 +974,9 @@ mutual
       omega
 end
 
-/-- **Every RESP2 reply is exactly one well-formed value on the wire.** Whatever follows it in the stream,
+/-- **Every reply made of RESP2 types and RESP3 scalars is exactly one well-formed value on the wire.**
+    (`Value.wire`: status lines, integers, nil, bulk strings, arrays of these to any depth; and null, booleans,
+    doubles, big numbers, blob errors and verbatim strings. Maps, sets and pushes are not covered.) Whatever follows it in the stream,
     a reader takes the serialized reply for one complete value — the reply itself, bulk strings byte for
     byte — and finds the next reply right behind it. -/
 theorem reply_is_one_value (v : Value) (hw : v.wire = true) (rest : Bytes) :
